@@ -15,6 +15,7 @@ type ContextScope struct {
 	errorsMU sync.Mutex
 	errors   []error
 	done     chan struct{}
+	stopOnce sync.Once
 }
 
 // New create new instance of context scope
@@ -55,7 +56,10 @@ func (s *ContextScope) Kill() {
 func (s *ContextScope) Stop() {
 	if !s.IsDone() {
 		verifhook.Yield("contextscope.stop.gap")
-		close(s.done)
+		// many goroutines can get here at once: the channel is closed exactly once
+		s.stopOnce.Do(func() {
+			close(s.done)
+		})
 	}
 }
 
